@@ -644,13 +644,25 @@ def CA(x, fl):
     return "then((%s&&%s.is_compact),T[# [ codec ( compact ) ]]())" % (fl, x)
 
 
+def dispatch_on_kind(t):
+    """`ts.extend(quote!(#a #b #item))` with item = match self.kind { .. => quote!(..) } is the match around the whole template: what is written
+    once around the choice belongs to each alternative"""
+    from .core.norm import _tpl_over_match, _extend_over_match
+    if t[0] == "call" and t[1] == "Extend::extend" and len(t[2]) == 2 and t[2][1][0] == "tpl":
+        inner = t[2][1]
+        ks = [sl for sl in inner[3] if sl[0] == "match" and show(sl[1]) == "P0.kind"]
+        if len(ks) == 1:
+            return _extend_over_match(t[2][0], _tpl_over_match(inner, min_slots=1))
+    return t
+
+
 def item_templates(ctx, rid):
     """K4/K5: struct / enum item templates, variant template with codec(index = <identity of v.index>)"""
     fn = type_ir_tokens_fn(ctx, rid)
     if fn is None:
         return
     N = _norm(ctx, fn)
-    t = N.term(fn["body"])
+    t = dispatch_on_kind(N.term(fn["body"]))
     if t[0] != "match" or show(t[1]) != "P0.kind":
         ctx.bad(rid, "item/dispatch", fn["sp"], "TypeIR::to_tokens does not dispatch on self.kind: " + show(t)[:200])
         return
@@ -716,7 +728,7 @@ def field_templates(ctx, rid, strict_alloc=True):
     fn = type_ir_tokens_fn(ctx, rid)
     if fn is None:
         return
-    t = _norm(ctx, fn).term(fn["body"])
+    t = dispatch_on_kind(_norm(ctx, fn).term(fn["body"]))
     slot_s = slot_e = None
     for x in subterms(t):
         if x[0] == "tpl" and x[2] == "#0 #1 pub struct #2 #3 #4 #5" and len(x[3]) == 6:
